@@ -20,14 +20,16 @@ NOT_APPLICABLE = {}
 HOOK_COMMITS = []
 
 PROPS["C03"] = {
-    "bounds": "names 0..6 ASCII bytes, literal options 0..1 symbolic bytes, regex/notRegex from an enumerated family of concrete patterns",
+    "bounds": "names 0..4 ASCII bytes in the quick tier and 0..6 in the thorough tier, literal options 0..1 symbolic bytes, regex/notRegex from an enumerated family of 40 concrete patterns (obligations.py), each as regex and as notRegex; aggregation path and cache: names 0..4 / 1..2 bytes",
     "outside": "non-ASCII names under regex filters; patterns outside the family",
     "assumptions": ["input bytes < 0x80 when a regex is configured", "regexp.Match modelled as bounded NFA unrolling of the real syntax.Prog"],
     "groups": [
         {"pkg": "matcher", "hdir": "matcher",
          "specs": [spec("C03/match/literal", "VerifC03Literal")] +
-                  [spec("C03/match/regex=" + p, "VerifC03Regex", {"regex": p, "notRegex": ""}) for p in C03_PATTERNS_QUICK] +
-                  [spec("C03/match/notRegex=" + p, "VerifC03Regex", {"regex": "", "notRegex": p}) for p in C03_PATTERNS_QUICK],
+                  [spec("C03/match/regex=" + p, "VerifC03Regex", {"regex": p, "notRegex": "", "maxlen": "xxxx"}) for p in C03_PATTERNS_QUICK] +
+                  [spec("C03/match/notRegex=" + p, "VerifC03Regex", {"regex": "", "notRegex": p, "maxlen": "xxxx"}) for p in C03_PATTERNS_QUICK] +
+                  [spec("C03/match/len<=6/regex=" + p, "VerifC03Regex", {"regex": p, "notRegex": "", "maxlen": "xxxxxx"}, tier="thorough") for p in C03_PATTERNS_QUICK] +
+                  [spec("C03/match/len<=6/notRegex=" + p, "VerifC03Regex", {"regex": "", "notRegex": p, "maxlen": "xxxxxx"}, tier="thorough") for p in C03_PATTERNS_QUICK],
          },
     ],
 }
